@@ -460,6 +460,16 @@ impl<'a> Exec<'a> {
                     Err(e) => return Err(format!("corrupt: container refuses: {}", e)),
                 }
             }
+            "decode_wire" => {
+                let bytes = self.ctx.wire(a(0)).map_err(|e| e.0)?;
+                match var % 2 {
+                    0 => res(Envelope::try_from_cbor_data(bytes)),
+                    _ => match dcbor::CBOR::try_from_data(&bytes) {
+                        Ok(c) => res(Envelope::try_from_cbor(c)),
+                        Err(e) => Outcome::Err(format!("other:{}", e)),
+                    },
+                }
+            }
             "encode_decode" => {
                 let e = reg(regs, a(0))?;
                 match var % 3 {
